@@ -766,6 +766,34 @@ impl World {
     }
 }
 
+/// Forge what the spl-single-pool program would have created for a validator: the pool account, its LST mint
+/// (a copy of `like_mint`'s bytes at the derived address) and its SOL stake account. Returns the pool key.
+pub fn forge_single_pool(s: &mut Store, label: &str, like_mint: &Pubkey, stake_lamports: u64) -> Pubkey {
+    let pool = key(&format!("singlepool:{label}"));
+    let (mint, sol_pool) = ix::single_pool_keys(&pool);
+    s.set(pool, Acct::new(1_000_000, vec![1u8; 64], marginfi::constants::SPL_SINGLE_POOL_ID));
+    let m = s.get(like_mint).unwrap().clone();
+    s.set(mint, Acct::new(m.lamports, m.data.clone(), spl_token::id()));
+    let mut d: Vec<u8> = vec![];
+    d.extend_from_slice(&2u32.to_le_bytes());
+    d.extend_from_slice(&2_282_880u64.to_le_bytes());
+    d.extend_from_slice(&[1u8; 32]);
+    d.extend_from_slice(&[1u8; 32]);
+    d.extend_from_slice(&0i64.to_le_bytes());
+    d.extend_from_slice(&0u64.to_le_bytes());
+    d.extend_from_slice(&[0u8; 32]);
+    d.extend_from_slice(&[2u8; 32]);
+    d.extend_from_slice(&stake_lamports.to_le_bytes());
+    d.extend_from_slice(&0u64.to_le_bytes());
+    d.extend_from_slice(&u64::MAX.to_le_bytes());
+    d.extend_from_slice(&0.25f64.to_le_bytes());
+    d.extend_from_slice(&0u64.to_le_bytes());
+    d.push(0);
+    d.resize(200, 0);
+    s.set(sol_pool, Acct::new(stake_lamports + 2_282_880, d, marginfi::constants::NATIVE_STAKE_ID));
+    pool
+}
+
 /// Turn an ordinary bank into a staked-collateral bank by forging what `add_bank_permissionless`
 /// would have produced: asset tag STAKED, oracle setup StakedWithPythPush with the bank's own mint
 /// as the LST mint and a forged native stake account as the SOL pool.
